@@ -270,7 +270,16 @@ def fingerprint():
 
 
 # the fingerprint of the source the model was written against (escalates the budget when it differs)
-MODEL_FINGERPRINT = None
+MODEL_FINGERPRINT = "1168ac62751c2db6"
+
+
+def check_fingerprint(ctx):
+    """a changed source does not raise an alarm but escalates the run to the thorough budget"""
+    fp = fingerprint()
+    ctx.count("fingerprint_" + fp)
+    if fp != MODEL_FINGERPRINT:
+        ctx.escalated = True
+        ctx.note("isoparser.py fingerprint %s differs from the one the model was written against (%s): thorough budget" % (fp, MODEL_FINGERPRINT))
 
 
 # ---- mutation stream (C20; a sample of it is reused by C07 for the recognised => parsed direction)
